@@ -10,6 +10,7 @@ import (
 	"go/types"
 	"regexp"
 	"sort"
+	"strconv"
 	"strings"
 
 	"golang.org/x/tools/go/ssa"
@@ -601,6 +602,83 @@ func c13Escapes(c *Ctx) {
 			return true
 		}
 		found = true
+		// semantic reading, when the conditions can be evaluated: the characters for which the write of the escaped
+		// character is reached are exactly [ and ] (whatever the arrangement of the tests: positive, negated, switch)
+		{
+			var write *ast.CallExpr
+			walkNoLit(is.Body, func(n ast.Node) bool {
+				if call, ok := n.(*ast.CallExpr); ok && write == nil {
+					if sel, ok := unparen(call.Fun).(*ast.SelectorExpr); ok && (sel.Sel.Name == "WriteRune" || sel.Sel.Name == "WriteString" || sel.Sel.Name == "WriteByte") {
+						write = call
+					}
+				}
+				return true
+			})
+			isRuneVar := func(e ast.Expr) bool {
+				id := identOf(e)
+				if id == nil {
+					return false
+				}
+				v, ok := info.Uses[id].(*types.Var)
+				if !ok {
+					return false
+				}
+				b, ok := v.Type().Underlying().(*types.Basic)
+				return ok && b.Kind() == types.Int32
+			}
+			if write != nil {
+				if all, okg := pathGuardsTo(w, info, is.Body, write); okg {
+					var guards []pathGuard
+					for _, g := range all {
+						mentions := false
+						check := func(e ast.Expr) {
+							if e == nil {
+								return
+							}
+							ast.Inspect(e, func(q ast.Node) bool {
+								if x, ok := q.(ast.Expr); ok && isRuneVar(x) {
+									mentions = true
+								}
+								return !mentions
+							})
+						}
+						check(g.cond)
+						check(g.tag)
+						if mentions {
+							guards = append(guards, g)
+						}
+					}
+					if len(guards) > 0 {
+						var wrong []string
+						evaluable := true
+						for _, ch := range []int64{'[', ']', '\\', 'n', '"', '{', '}', ' ', 'a', '/'} {
+							reach, ok := reachableUnder(info, guards, func(e ast.Expr) (int64, bool) {
+								if isRuneVar(e) {
+									return ch, true
+								}
+								return 0, false
+							})
+							if !ok {
+								evaluable = false
+								break
+							}
+							if reach != (ch == '[' || ch == ']') {
+								wrong = append(wrong, strconv.QuoteRune(rune(ch))+map[bool]string{true: " is unescaped", false: " is not unescaped"}[reach])
+							}
+						}
+						if evaluable {
+							ok2 := len(wrong) == 0
+							why := "after a backslash exactly [ and ] are treated as escaped (the conditions on the way to the write, evaluated on 10 characters)"
+							if !ok2 {
+								why = "after a backslash " + strings.Join(wrong, ", ") + ": the script lexer has already resolved all other escapes, so such characters would be dropped from (or kept in) the text wrongly"
+							}
+							c.ob("C13.R5", entry.Name+"/escapable-characters", w.Pos(is.Pos()), ok2, why)
+							return true
+						}
+					}
+				}
+			}
+		}
 		consts := map[int64]bool{}
 		ast.Inspect(is.Body, func(n ast.Node) bool {
 			if bb, ok := n.(*ast.BinaryExpr); ok && bb.Op == token.EQL {
